@@ -545,7 +545,9 @@ int slic(const numpy::aligned_array<npy_float32> array, numpy::aligned_array<int
     const int N = Ny*Nx;
     const float inf = 10e20;
     // m²/S²
-    const float m2S2 = float(m*m)/float(S*S);
+    // S*S and 2*S are formed in floating point: as ints they overflow for S >= 46341 and S >= 2**30
+    const float m2S2 = float(m*m)/(float(S)*float(S));
+    const float twoS = 2.f*float(S);
     int* labels = alabels.data();
     std::fill(labels, labels + N, -2);
 
@@ -561,8 +563,8 @@ int slic(const numpy::aligned_array<npy_float32> array, numpy::aligned_array<int
     std::vector<centroid_info> centroids;
     std::vector<int> centroid_counts;
     
-    for (int y = S/2; y < Ny; y += S) {
-        for (int x = S/2; x < Nx; x += S) {
+    for (npy_intp y = S/2; y < Ny; y += S) {
+        for (npy_intp x = S/2; x < Nx; x += S) {
             float l = array.at(y,x,0);
             float a = array.at(y,x,1);
             float b = array.at(y,x,2);
@@ -582,10 +584,10 @@ int slic(const numpy::aligned_array<npy_float32> array, numpy::aligned_array<int
         std::fill(distance.begin(), distance.end(), inf);
         for (unsigned ci = 0; ci < centroids.size(); ++ci) {
             const centroid_info& c = centroids[ci];
-            const int start_y = int(std::max<float>(0.0, c.y - 2*S));
-            const int start_x = int(std::max<float>(0.0, c.x - 2*S));
-            const int end_y = int(std::min<float>(Ny, c.y + 2*S));
-            const int end_x = int(std::min<float>(Nx, c.x + 2*S));
+            const int start_y = int(std::max<float>(0.0, c.y - twoS));
+            const int start_x = int(std::max<float>(0.0, c.x - twoS));
+            const int end_y = int(std::min<float>(Ny, c.y + twoS));
+            const int end_x = int(std::min<float>(Nx, c.x + twoS));
             assert(start_y < end_y);
             assert(start_x < end_x);
             for (int y = start_y; y != end_y; ++y) {
